@@ -29,6 +29,7 @@ PROPS = {
     "C03": "harness.corr_c03",
     "C04": "harness.corr_c04",
     "C05": "harness.corr_c05",
+    "C06": "harness.corr_sched",
     "C07": "harness.corr_channel",
     "C12": "harness.corr_c12",
     "C15": "harness.corr_bytecode",
